@@ -39,7 +39,7 @@ CONSTANTS MaxReq,      \* requests in the client's plan
           Faults       \* subset of {"eof", "reset", "fail", "term"} the environment may inject
 
 Reqs == 1..MaxReq
-CodeDev == {"disc_put_blocks", "parked_not_released", "idle_keeps_handler", "double_access_log"}
+CodeDev == {"disc_put_blocks", "parked_not_released", "double_access_log"}   \* "idle_keeps_handler" was repaired
 
 VARIABLES
     plan,      \* [Reqs -> [body : 0..MaxBody, close : BOOLEAN]]
